@@ -18,10 +18,11 @@
 (***************************************************************************)
 EXTENDS WsReaderMon, TLC
 
-CONSTANTS Sides, MaxFrames, ReadSizes, Payloads, Cuts, WithExt, WithUtf8, MaxSize, WithInvalid,
+CONSTANTS Sides, MaxFrames, MinFrames, ValidOnly, ReadSizes, Payloads, Cuts, WithExt, WithUtf8, MaxSize, WithInvalid,
           BugBareLimitedReader
 
 CutsNone == {-1}
+CutsSim == {-1, 4, 7}
 CutsAll == -1..12
 PayloadsSmall == {<<>>, <<65>>, <<195, 169>>}          \* "", "A", "é"
 PayloadsUtf8 == {<<>>, <<65>>, <<195>>, <<169>>, <<195, 169>>}
@@ -58,9 +59,11 @@ VARIABLES sc, m,                     \* scenario, monitor
           frame, rawN, frag, opCode, \* the struct: frame # nil, raw.N, State.Fragmented, opCode
           cur,                       \* index of the frame whose payload raw refers to
           u8, u8on, comp,            \* utf8 automaton state, utf8 wrapping active, MessageState.compressed
-          inmsg, dead, steps
+          inmsg, dead, steps,
+          lastEv,                    \* the event of the last call (for replay into the real Reader)
+          params, phase, fs          \* scenario parameters; "build" | "run"; frame specs chosen so far
 
-vars == <<sc, m, pos, frame, rawN, frag, opCode, cur, u8, u8on, comp, inmsg, dead, steps>>
+vars == <<sc, m, pos, frame, rawN, frag, opCode, cur, u8, u8on, comp, inmsg, dead, steps, lastEv, params, phase, fs>>
 
 F == sc.frames
 End == IF sc.cut >= 0 THEN sc.cut ELSE IF F = <<>> THEN 0 ELSE F[Len(F)].pe
@@ -124,7 +127,7 @@ StOf == [pos |-> pos, frame |-> frame, rawN |-> rawN, frag |-> frag, opCode |-> 
 Commit(st) == /\ pos' = st.pos /\ frame' = st.frame /\ rawN' = st.rawN /\ frag' = st.frag
               /\ opCode' = st.opCode /\ cur' = st.cur /\ u8on' = st.u8on /\ comp' = st.comp
 
-Emit(e) == /\ m' = RStep(m, e) /\ steps' = steps + 1 /\ UNCHANGED sc
+Emit(e) == /\ m' = RStep(m, e) /\ steps' = steps + 1 /\ lastEv' = e /\ UNCHANGED sc
 
 BaseEv(name) == [ev |-> name, k |-> 0, n |-> 0, data |-> <<>>, lo |-> -1, hi |-> -1, err |-> "nil", rule |-> "",
                  hdr |-> ZeroH, cbs |-> <<>>, pulled |-> pos]
@@ -171,7 +174,8 @@ AppRead(k) ==
              from == f.len - st1.rawN
              bytes == SubSeq(f.pay, from + 1, from + got)
              rawN2 == st1.rawN - got
-             srcEOF == got < want \/ (want = 0 /\ st1.rawN > 0 /\ st1.pos >= End /\ k > 0)
+             \* the transport has nothing more (a short read of the last bytes comes first, without error)
+             srcEOF == got = 0 /\ st1.rawN > 0 /\ st1.pos >= End /\ k > 0
              uf == IF st1.u8on THEN U8Feed(u8, bytes, 1, 0) ELSE <<u8, got, FALSE>>
              pos2 == st1.pos + got
          IN
@@ -216,22 +220,48 @@ AppDiscard ==
        /\ inmsg' = FALSE /\ dead' = (r[2] # "nil")
        /\ Emit([BaseEv("Discard") EXCEPT !.err = r[2], !.rule = r[3], !.cbs = r[4], !.pulled = r[1].pos])
 
-RECURSIVE SeqsUpTo(_, _)
-SeqsUpTo(S, n) == IF n = 0 THEN {<<>>} ELSE SeqsUpTo(S, n - 1) \cup {Append(s, x) : s \in SeqsUpTo(S, n - 1), x \in S}
-
+\* The stream is built frame by frame (phase "build"), then the application runs (phase "run").
 Init ==
-    \E side \in Sides, fs \in SeqsUpTo(FrameAlphabet, MaxFrames), ext \in WithExt, utf8 \in WithUtf8, max \in MaxSize :
-      \E cut \in Cuts :
-        /\ sc = Scenario(side, fs, cut, ext, utf8, max)
-        /\ cut < (IF fs = <<>> THEN 1 ELSE sc.frames[Len(fs)].pe)
-        /\ m = RInit(sc)
+    \E side \in Sides, ext \in WithExt, utf8 \in WithUtf8, max \in MaxSize, cut \in Cuts :
+        /\ params = [side |-> side, ext |-> ext, utf8 |-> utf8, max |-> max, cut |-> cut]
+        /\ phase = "build" /\ fs = <<>>
+        /\ sc = Scenario(side, <<>>, -1, ext, utf8, max)
+        /\ m = RInit(Scenario(side, <<>>, -1, ext, utf8, max))
         /\ pos = 0 /\ frame = FALSE /\ rawN = 0 /\ frag = FALSE /\ opCode = 0 /\ cur = 0
         /\ u8 = UAcc /\ u8on = FALSE /\ comp = FALSE /\ inmsg = FALSE /\ dead = FALSE /\ steps = 0
+        /\ lastEv = [ev |-> "setup"]
 
-Next == /\ m.bad = "" /\ steps < 24
-        /\ \/ AppNextFrame
-           \/ \E k \in ReadSizes : AppRead(k)
-           \/ AppDiscard
+\* fragmentation state after the frame specs chosen so far
+RECURSIVE OpenAfter(_, _, _)
+OpenAfter(q, i, open) == IF i > Len(q) THEN open
+                         ELSE OpenAfter(q, i + 1, IF q[i].op < 8 THEN ~q[i].fin ELSE open)
+\* f keeps the stream valid (used to steer simulation towards long behaviours)
+ValidNext(f) ==
+    LET open == OpenAfter(fs, 1, FALSE) IN
+    /\ ~f.wrongmask /\ f.op \in {0, 1, 2, 8, 9}
+    /\ f.op >= 8 => f.fin /\ f.rsv = 0
+    /\ f.op < 8 => (open <=> f.op = 0)
+    /\ f.rsv # 0 => params.ext /\ f.rsv = 4 /\ f.op \in {1, 2}
+
+AddFrame == /\ phase = "build" /\ Len(fs) < MaxFrames
+            /\ \E f \in FrameAlphabet : (ValidOnly => ValidNext(f)) /\ fs' = Append(fs, f)
+            /\ UNCHANGED <<params, phase, sc, m, pos, frame, rawN, frag, opCode, cur, u8, u8on, comp, inmsg, dead, steps, lastEv>>
+
+Start == /\ phase = "build" /\ Len(fs) >= MinFrames /\ phase' = "run"
+         /\ LET full == Scenario(params.side, fs, -1, params.ext, params.utf8, params.max)
+                endp == IF fs = <<>> THEN 0 ELSE full.frames[Len(fs)].pe
+                cut == IF params.cut >= 0 /\ params.cut < endp THEN params.cut ELSE -1
+                s2 == [full EXCEPT !.cut = cut]
+            IN sc' = s2 /\ m' = RInit(s2)
+         /\ UNCHANGED <<params, fs, pos, frame, rawN, frag, opCode, cur, u8, u8on, comp, inmsg, dead, steps, lastEv>>
+
+Run == /\ phase = "run" /\ m.bad = "" /\ steps < 24
+       /\ \/ AppNextFrame
+          \/ \E k \in ReadSizes : AppRead(k)
+          \/ AppDiscard
+       /\ UNCHANGED <<params, phase, fs>>
+
+Next == AddFrame \/ Start \/ Run
 
 Refines == m.bad = ""
 \* C13: the extension state is the RSV1 bit of the current message's first frame
